@@ -42,6 +42,20 @@ CLAIMED = {
         text="Seeded search over interleavings of mutations (every public mutator, entered through either end, the edge, unlink, builders), reads (neighbors in all argument combinations, six traversal forms, three searches), cache-flag flips, one restart per run and up to four live generator traversals; the uncached twin is the property's own oracle.",
         note="Reference = the same library code with NEIGHBOR_CACHING False. Zygote forks stand in for fresh interpreters for volume; a fixed share are real exec restarts and replays always exec.",
     ),
+    "C10": dict(
+        cat="exploration",
+        ref="DESIGN.md 4/C10",
+        technique="deterministic simulation of a crash/restart boundary: a world grown by a seeded history (or a deep shape many times the recursion limit, dumped under a measured lowered limit) is serialised with nrpickler, loaded in the same process or a fresh interpreter (zygote fork / exec), and original and copy are driven by the same continuation history; canonical snapshots and every outcome compared",
+        text="Seeded search over graph shapes, roots, protocols 0-5, dumps/dump, pickle/dill, same-process vs fresh-process loading, flag on/off on either side and a resource knob (recursion limit near a measured floor); durability oracle = isomorphism incl. sharing + differential usability of the copy.",
+        note="Classes of pickled objects are importable on the far side. Recursion floor measured per process on the same shape with 6 vertices. Zygote forks stand in for fresh interpreters for volume; a share are real exec.",
+    ),
+    "C11": dict(
+        cat="exploration",
+        ref="DESIGN.md 4/C11 (borderline, see there)",
+        technique="deterministic simulation: adjacency builders issued as mutators inside seeded histories on vertices with prior links/universes; reference model after every step; ill-shaped input as failing calls that must raise ValueError atomically; read-back through neighbors()/find_links",
+        text="Refinement against the reference model of the builders' effect and frame over histories, atomic rejection of bad input, read-back when the named vertices were fresh.",
+        note="Claimed for its frame and atomic-rejection clauses; the input->graph core is covered by the same model comparison.",
+    ),
     "C12": dict(
         cat="exploration",
         ref="DESIGN.md 4/C12",
@@ -90,7 +104,7 @@ NOT_APPLICABLE = {
     "C16": "A text formatter of the current state; nothing a simulator controls enters it (DESIGN 4/C14-16).",
 }
 
-PENDING = {k: 'check not built yet in this commit (claimed in DESIGN.md; machinery in progress)' for k in ['C10','C11']}
+PENDING = {}
 
 
 def main():
